@@ -39,14 +39,32 @@ class DispatchingRequestHandler(BaseHTTPRequestHandler):
         pass  # suppress printing of every request to stderr
 
     def get_first_path_element(self):
-        parsed_path = urlparse(self.path)
+        try:
+            parsed_path = urlparse(self.path)
+        except ValueError as ex:  # e.g. 'http://[': invalid IPv6 URL
+            raise InvalidPathError(reason='invalid url', soap_fault=None) from ex
         path_elements = parsed_path.path.split('/')
-        if len(path_elements[0]) > 0:
+        if len(path_elements[0]) > 0 or len(path_elements) == 1:
             return path_elements[0]
         return path_elements[1]
 
+    def _send_plain_response(self, http_status: int, http_reason: str):
+        """Send a response without content."""
+        self.send_response(http_status, http_reason)
+        self.send_header("Content-type", "text/plain; charset=utf-8")
+        self.send_header("Content-length", "0")
+        self.end_headers()
+
     def do_POST(self):  # pylint: disable=invalid-name
-        request_bytes = self._read_request()
+        try:
+            request_bytes = self._read_request()
+        except Exception as ex:  # malformed framing, unsupported or corrupt content coding
+            self.server.logger.error('could not read request {} (request from {}): {!r}',
+                                     self.path, self.client_address, ex)
+            # position in input stream is undefined now, do not try to read another request from it
+            self.close_connection = True  # pylint: disable=attribute-defined-outside-init
+            self._send_plain_response(400, 'Bad Request')
+            return
         if self.server.dispatcher is None:
             # close this connection
             self.close_connection = True  # pylint: disable=attribute-defined-outside-init
@@ -103,10 +121,15 @@ class DispatchingRequestHandler(BaseHTTPRequestHandler):
             # close this connection
             self.close_connection = True  # pylint: disable=attribute-defined-outside-init
             response_xml_string = 'received a POST request, but have no dispatcher'
-            self.send_response(404, response_xml_string)  # not found
+            self._send_plain_response(404, response_xml_string)  # not found
             return
 
-        component = self.server.dispatcher.get_instance(self.get_first_path_element())
+        try:
+            component = self.server.dispatcher.get_instance(self.get_first_path_element())
+        except InvalidPathError as ex:
+            self.server.logger.error('invalid path {} (request from {}): {}', self.path, self.client_address, ex.reason)
+            self._send_plain_response(ex.status, ex.reason)
+            return
 
         peer_name = self.connection.getpeername()
         result = component.do_get(self.headers, self.path, peer_name)
